@@ -91,7 +91,9 @@ impl<R: BufRead> LiteralDataReader<R> {
     }
 
     fn fill_inner(&mut self) -> io::Result<()> {
-        if self.is_done() {
+        // Not `is_done()`: it panics in the error state, and reading again after a failed
+        // read must report an error (see the `Self::Error` arm below).
+        if matches!(self, Self::Done { buffer, .. } if !buffer.has_remaining()) {
             return Ok(());
         }
 
